@@ -8,7 +8,7 @@
    - Fan: one call of a `first` strategy or of unblindProposal with n scripted providers released
      one at a time; afterwards the harness counts the goroutines of that function that are blocked
      on a channel send. *)
-From Verif Require Export Lib.Base Model.C20_Bookkeeping Model.C20_Fanout.
+From Verif Require Export Lib.Base Model.C20_Bookkeeping Model.C20_Fanout Model.C20_Jobs.
 
 Record probe := { p_slot : N; p_has : bool; p_job : bool }.
 
@@ -26,7 +26,11 @@ Inductive body :=
       (evs : list fev)
       (returned : bool)  (* the call came back *)
       (ok : bool)        (* ... with an answer *)
-      (nblocked : N).    (* goroutines of the function blocked on a channel send afterwards *)
+      (nblocked : N)     (* goroutines of the function blocked on a channel send afterwards *)
+(* the REAL scheduler (services/scheduler/advanced) driven through its public interface in a
+   synctest bubble; after every operation: ListJobs (ids ascending) and the ids whose job function
+   has run so far (ascending) *)
+| Jobs (jops : list jop) (jrows : list (list N * list N)).
 
 Record case := { c_id : N; c_body : body }.
 
@@ -60,6 +64,7 @@ Definition agree (c : case) : bool :=
   | Fan _ n timeout detect evs returned ok nblocked =>
       let s := fan_model n timeout detect evs in
       Bool.eqb returned (f_coll_done s) && Bool.eqb ok (f_recvd s =? 1) && (nblocked =? blocked s)
+  | Jobs jops jrows => list_eqb (prod_eqb nlist_eqb nlist_eqb) (jtrace jops jinit) jrows
   end.
 
 (* --- P_b: the property on the observed values alone ------------------------------------------ *)
@@ -145,10 +150,41 @@ Fixpoint soak_ok (spe : N) (t : track) (prev_running : list N) (ops : list op) (
   | _, _ => false
   end.
 
+(* the job table on the observed listings alone: every listed job was scheduled (most recent
+   effective ScheduleJob of that name) for an instant that has not come yet, and no name is listed
+   twice: the table holds outstanding future jobs only *)
+Fixpoint fire_of (fires : list (N * N)) (id : N) : option N :=
+  match fires with
+  | [] => None
+  | (i, t) :: fires' => if i =? id then Some t else fire_of fires' id
+  end.
+
+Fixpoint ascending (l : list N) : bool :=
+  match l with
+  | x :: ((y :: _) as l') => (x <? y) && ascending l'
+  | _ => true
+  end.
+
+Fixpoint jobs_ok (now : N) (fires : list (N * N)) (prev_tab : list N) (ops : list jop)
+         (rows : list (list N * list N)) : bool :=
+  match ops, rows with
+  | [], [] => true
+  | o :: ops', (tab, runs) :: rows' =>
+      let now' := match o with JAdvance d => now + d | _ => now end in
+      let fires' := match o with
+                    | JSchedule id a => if memb N.eqb id prev_tab then fires else (id, now + a) :: fires
+                    | _ => fires
+                    end in
+      forallb (fun id => match fire_of fires' id with Some t => now' <? t | None => false end) tab &&
+      ascending tab && jobs_ok now' fires' tab ops' rows'
+  | _, _ => false
+  end.
+
 Definition P_b (c : case) : bool :=
   match c_body c with
   | Soak spe ops rows => (0 <? spe) && soak_ok spe track0 [] ops rows
   | Fan _ _ _ _ _ returned _ nblocked => returned && (nblocked =? 0)
+  | Jobs jops jrows => jobs_ok 0 [] [] jops jrows
   end.
 
 Definition mismatches (cs : list case) : list N := failing_ids c_id agree cs.
